@@ -189,6 +189,10 @@ class FileBorrowers(object):
                 # ASN.1 file, which is no transformed copy
                 for want_texts, has_texts in (('yes', True), (True, 'yes'), (1, True), (True, 1), (0, False), (False, None), ('', 0)):
                     yield {'b': block['b'], 'present': list(present), 'want': want_texts, 'has': has_texts}
+                # the flavour may be given to the constructor, set afterwards, or changed between two requests
+                for want_texts, has_texts in itertools.product([False, True], repeat=2):
+                    for via in ('setOptions', 'relabelled'):
+                        yield {'b': block['b'], 'present': list(present), 'want': want_texts, 'has': has_texts, 'via': via}
                 yield {'b': block['b'], 'present': list(present), 'want': False, 'has': False, 'index': '.txt'}
                 yield {'b': block['b'], 'present': list(present), 'want': False, 'has': False, 'index': '.py' if block['b'] == 'py' else '.json'}
 
@@ -210,12 +214,22 @@ class FileBorrowers(object):
                 with open(os.path.join(d, '.index'), 'w') as f:
                     f.write('FOO-MIB indexed%s\n' % case['index'])
             reader = FileReader(d).setOptions(lowcaseMatching=False)
+            via = case.get('via', 'constructor')
+            first = case['has'] if via == 'constructor' else (not case['has']) if via == 'relabelled' else None
+            kw = {} if first is None else {'genTexts': first}
             if case['b'] == 'py':
-                b = PyFileBorrower(reader, genTexts=case['has'])
+                b = PyFileBorrower(reader, **kw)
                 own = ['.py']
             else:
-                b = AnyFileBorrower(reader, genTexts=case['has']).setOptions(exts=['.json'])
+                b = AnyFileBorrower(reader, **kw).setOptions(exts=['.json'])
                 own = ['.json']
+            if via == 'relabelled':
+                try:
+                    b.getData('FOO-MIB', genTexts=case['want'])     # used once under its first label
+                except error.PySmiError:
+                    pass
+            if via != 'constructor':
+                b.setOptions(genTexts=case['has'])
             try:
                 info, data = b.getData('FOO-MIB', genTexts=case['want'])
                 got = data
